@@ -64,6 +64,15 @@ def directed_scenarios():
                 for lam in (1, 0.5):
                     steps = ([pre] if pre else []) + [{"mode": "gate", "gate": gate, "geq": True, "a": ("label", a, {(a,): 1}), "ops": ops, "lam": lam}]
                     out.append({"labels": labels, "steps": steps, "objective": obj, "arg_form": "dict", "fork": None})
+    # the same label more than once among the arguments (also as the output)
+    la = lambda x: ("label", x, {(x,): 1})      # noqa
+    for gate in ("AND", "OR", "XOR", "NAND", "NOR", "XNOR"):
+        for args in ((a, b, b), (a, a, b), (a, b, a), (b, b, b)):
+            for geq in (True, False):
+                for lam in (1, 0.5):
+                    st = {"mode": "gate", "gate": gate, "geq": geq, "a": la(args[0]) if geq else None,
+                          "ops": [la(x) for x in (args[1:] if geq else args)], "lam": lam}
+                    out.append({"labels": labels, "steps": [st], "objective": None, "arg_form": "dict", "fork": None})
     return out
 
 
